@@ -141,6 +141,11 @@ def identify(encoding, pd=False):
 registry.identify = identify
 
 # ----------------------------------------------------------------------------- T2
+ELF_NAMES = ['Elf_Arm_Attribute_Tag', 'Elf_Attr_Subsection_Header', 'Elf_Chdr', 'Elf_Dyn', 'Elf_Ehdr', 'Elf_Hash', 'Elf_Nhdr', 'Elf_Nt_File', 'Elf_Phdr', 'Elf_Prop', 'Elf_Prpsinfo', 'Elf_Rel', 'Elf_Rela', 'Elf_Relr', 'Elf_RiscV_Attribute_Tag', 'Elf_Shdr', 'Elf_Stabs', 'Elf_Sunw_Syminfo', 'Elf_Sym', 'Elf_Verdaux', 'Elf_Verdef', 'Elf_Vernaux', 'Elf_Verneed', 'Elf_Versym', 'Elf_abi', 'Elf_addr', 'Elf_byte', 'Elf_half', 'Elf_ntbs', 'Elf_offset', 'Elf_sword', 'Elf_sxword', 'Elf_ugid', 'Elf_uleb128', 'Elf_word', 'Elf_word64', 'Elf_xword', 'Gnu_Hash', 'Gnu_debuglink']
+DWARF_NAMES = ['Dwarf_CIE_header', 'Dwarf_CU_header', 'Dwarf_FDE_header', 'Dwarf_TU_header', 'Dwarf_abbrev_declaration', 'Dwarf_address_table_header', 'Dwarf_aranges_header', 'Dwarf_debugaltlink', 'Dwarf_debugsup', 'Dwarf_initial_length', 'Dwarf_int16', 'Dwarf_int32', 'Dwarf_int64', 'Dwarf_int8', 'Dwarf_length', 'Dwarf_lineprog_file_entry', 'Dwarf_lineprog_header', 'Dwarf_loclists_CU_header', 'Dwarf_loclists_counted_location_description', 'Dwarf_loclists_entries', 'Dwarf_locview_pair', 'Dwarf_nameLUT_header', 'Dwarf_offset', 'Dwarf_rnglists_CU_header', 'Dwarf_rnglists_entries', 'Dwarf_sleb128', 'Dwarf_string_offsets_table_header', 'Dwarf_target_addr', 'Dwarf_uint16', 'Dwarf_uint24', 'Dwarf_uint32', 'Dwarf_uint64', 'Dwarf_uint8', 'Dwarf_uleb128', 'EH_CIE_header', 'the_Dwarf_offset', 'the_Dwarf_sleb128', 'the_Dwarf_target_addr', 'the_Dwarf_uint16', 'the_Dwarf_uint32', 'the_Dwarf_uint8', 'the_Dwarf_uleb128']
+FORM_NAMES = ['DW_FORM_GNU_ref_alt', 'DW_FORM_GNU_strp_alt', 'DW_FORM_addr', 'DW_FORM_addrx', 'DW_FORM_addrx1', 'DW_FORM_addrx2', 'DW_FORM_addrx3', 'DW_FORM_addrx4', 'DW_FORM_block', 'DW_FORM_block1', 'DW_FORM_block2', 'DW_FORM_block4', 'DW_FORM_data1', 'DW_FORM_data16', 'DW_FORM_data2', 'DW_FORM_data4', 'DW_FORM_data8', 'DW_FORM_exprloc', 'DW_FORM_flag', 'DW_FORM_flag_present', 'DW_FORM_implicit_const', 'DW_FORM_indirect', 'DW_FORM_line_strp', 'DW_FORM_loclistx', 'DW_FORM_ref1', 'DW_FORM_ref2', 'DW_FORM_ref4', 'DW_FORM_ref8', 'DW_FORM_ref_addr', 'DW_FORM_ref_sig8', 'DW_FORM_ref_sup4', 'DW_FORM_ref_sup8', 'DW_FORM_ref_udata', 'DW_FORM_rnglistx', 'DW_FORM_sdata', 'DW_FORM_sec_offset', 'DW_FORM_string', 'DW_FORM_strp', 'DW_FORM_strp_sup', 'DW_FORM_strx', 'DW_FORM_strx1', 'DW_FORM_strx2', 'DW_FORM_strx3', 'DW_FORM_strx4', 'DW_FORM_udata']
+EHABI_NAMES = ['EH_index_struct', 'EH_table_struct', 'EHABI_uint32']
+
 walker = conwalk.Walker(registry)
 pool = {}        # con text -> def name
 pool_order = []
@@ -295,32 +300,50 @@ def emit_tables():
 
 
 def emit_structs():
-    L = [HDR, 'import PyElf.Core.Construct', 'set_option maxRecDepth 100000', 'namespace PyElf.Gen', '']
+    L = [HDR, 'import PyElf.Core.Bundles', 'set_option maxRecDepth 100000', 'namespace PyElf.Gen', 'open PyElf', '']
     for text in pool_order:
         L.append('def %s : Con := %s' % (pool[text], text))
     L.append('')
-    # distinct bundles
+    # distinct bundles, as records
     bpool = {}
-    for key, b in elf_bundles + dwarf_bundles + [((le,), b) for le, b in ehabi_bundles]:
-        if b not in bpool:
-            bpool[b] = 'b%d' % len(bpool)
-            ents = ['(%s, %s)' % (lean_str(n), c) for n, c in b]
-            L.append('def %s : List (String × Con) :=\n    %s' % (bpool[b], chunked_list(ents, 'String × Con')))
+
+    def rec_elf(b):
+        d = dict(b)
+        return '{ ' + ', '.join('%s := %s' % (n, d.get(n, 'Con.missing')) for n in ELF_NAMES) + ' }'
+
+    def rec_dwarf(b):
+        d = dict(b)
+        fs = ['(%s, %s)' % (lean_str(f), d.get('Dwarf_dw_form:' + f, 'Con.missing')) for f in FORM_NAMES]
+        return '{ ' + ', '.join('%s := %s' % (n, d.get(n, 'Con.missing')) for n in DWARF_NAMES) + \
+            ',\n      forms := [' + ', '.join(fs) + '] }'
+
+    def rec_ehabi(b):
+        d = dict(b)
+        return '{ ' + ', '.join('%s := %s' % (n, d.get(n, 'Con.missing')) for n in EHABI_NAMES) + ' }'
+
+    for kind, ty, rec, lst in (('e', 'ElfStructs', rec_elf, [b for _, b in elf_bundles]),
+                               ('d', 'DwarfStructs', rec_dwarf, [b for _, b in dwarf_bundles]),
+                               ('h', 'EhabiStructs', rec_ehabi, [b for _, b in ehabi_bundles])):
+        for b in lst:
+            text = rec(b)
+            if (kind, text) not in bpool:
+                bpool[(kind, text)] = '%sb%d' % (kind, len(bpool))
+                L.append('def %s : %s :=\n    %s' % (bpool[(kind, text)], ty, text))
     L.append('')
     b2 = lambda x: 'true' if x else 'false'
     L.append('/-- machine name → behaviour class (representative machine); unlisted ⇒ "default" -/')
     L.append('def machineClass : List (String × String) :=\n    %s' % chunked_list(
         ['(%s, %s)' % (lean_str(m), lean_str(r)) for m, r in machine_class], 'String × String'))
     L.append('/-- (little_endian, elfclass, machine class, OS ABI is Solaris, e_type is ET_CORE) → bundle -/')
-    L.append('def elfBundles : List ((Bool × Nat × String × Bool × Bool) × List (String × Con)) :=\n    %s' % chunked_list(
-        ['((%s, %d, %s, %s, %s), %s)' % (b2(le), cls, lean_str(rep), b2(sol), b2(core), bpool[b])
-         for (le, cls, rep, sol, core), b in elf_bundles], '(Bool × Nat × String × Bool × Bool) × List (String × Con)'))
+    L.append('def elfBundles : List (ElfCfg × ElfStructs) :=\n    %s' % chunked_list(
+        ['(⟨%s, %d, %s, %s, %s⟩, %s)' % (b2(le), cls, lean_str(rep), b2(sol), b2(core), bpool[('e', rec_elf(b))])
+         for (le, cls, rep, sol, core), b in elf_bundles], 'ElfCfg × ElfStructs'))
     L.append('/-- (little_endian, dwarf_format, address_size, dwarf_version) → bundle -/')
-    L.append('def dwarfBundles : List ((Bool × Nat × Nat × Nat) × List (String × Con)) :=\n    %s' % chunked_list(
-        ['((%s, %d, %d, %d), %s)' % (b2(le), fmt, asz, ver, bpool[b])
-         for (le, fmt, asz, ver), b in dwarf_bundles], '(Bool × Nat × Nat × Nat) × List (String × Con)'))
-    L.append('def ehabiBundles : List (Bool × List (String × Con)) :=\n    %s' % chunked_list(
-        ['(%s, %s)' % (b2(le), bpool[b]) for le, b in ehabi_bundles], 'Bool × List (String × Con)'))
+    L.append('def dwarfBundles : List (DwarfCfg × DwarfStructs) :=\n    %s' % chunked_list(
+        ['(⟨%s, %d, %d, %d⟩, %s)' % (b2(le), fmt, asz, ver, bpool[('d', rec_dwarf(b))])
+         for (le, fmt, asz, ver), b in dwarf_bundles], 'DwarfCfg × DwarfStructs'))
+    L.append('def ehabiBundles : List (Bool × EhabiStructs) :=\n    %s' % chunked_list(
+        ['(%s, %s)' % (b2(le), bpool[('h', rec_ehabi(b))]) for le, b in ehabi_bundles], 'Bool × EhabiStructs'))
     L.append('/-- `_InitialLengthAdapter._decode` still has the source text Con.initialLength models -/')
     L.append('def initialLengthAdapterSourceOk : Bool := %s' % b2(initial_length_ok))
     L.append('')
